@@ -167,6 +167,15 @@ func init() {
 		reg("C01", inboxParams{T: 2, M: 3, Size: size, StartMode: 1}, "quick", 2, 4)
 		reg("C01", inboxParams{T: 3, M: 2, Size: size, StartMode: 0}, "thorough", 2, 3)
 	}
+	// C01: the real batch boundary (messageBatchSize = 4096 in the unscaled build): 4096+3 messages are
+	// queued before Start (the ring grows from 1-2 slots to 8192), then the worker drains them in
+	// batches of 4096 and 3.
+	for _, size := range []int{1, 2} {
+		ip := inboxParams{T: 1, M: 4099, Size: size, StartMode: 2}
+		Register(&Job{Name: fmt.Sprintf("C01/inbox-real-batch/%s", ip), Prop: "C01", Bound: 0, BoundT: 0, Budget: 40, BudgetT: 120, Horizon: 400000,
+			Desc: "real Inbox with the repository's own messageBatchSize: 4099 messages queued before Start, drained in batches of 4096 + 3; exactly-once, order, senders",
+			Make: func() vsched.Instance { return inboxInstance(ip) }})
+	}
 	// C02 (inbox level): at most one worker inside Invoke, each Invoke after the previous.
 	for _, size := range []int{1, 2} {
 		reg("C02", inboxParams{T: 2, M: 2, Size: size, StartMode: 1, Yield: true}, "quick", 3, 99)
